@@ -27,6 +27,9 @@ META = (META[0] + ' BISECT (the bisection loops of lower_bound / upper_bound, wh
 META = (META[0] + ' MEMSHORT (a bytewise memcmp / memcpy / memmove over elements is guarded by the trait that makes bytes and values agree; controls in fixtures/extra10_pos.hpp).', META[1])
 
 
+META = (META[0] + ' SETPUSH (a sorted set appends to its storage only inside insert / emplace, followed by the rotation that places the element).', META[1])
+
+
 def run(chk, tier):
     db = D.load("checks")
     from ..rules import params as _PR
@@ -45,6 +48,9 @@ def run(chk, tier):
     if _X10.mem_shortcut_area(chk, db, ['_set/', '_flat_set/', '_algorithm/lower_bound', '_algorithm/upper_bound', '_algorithm/equal', '_algorithm/lexicographical']) < 40:      # MEMSHORT
         chk.analysis_broken('MEMSHORT: fewer than 40 function bodies scanned (floor 40)')
     _X10.positive_controls(chk, D, ('MEMSHORT',))
+    from ..rules import extra12 as _X12
+    if _X12.set_push_area(chk, db, ['etl::static_set', 'etl::flat_set', 'etl::flat_multiset']) < 1:      # SETPUSH
+        chk.analysis_broken('SETPUSH: no member of the sets appends to the underlying storage (floor 1)')
     totals = {}
     for rq, needs_full in SETS.items():
         if not db.rec_by_q.get(rq):
